@@ -264,6 +264,16 @@ def verifiedStr (v : Verified) : String := s!"ok hf={goOfHk v.hk} ticket={if v.h
 def tiesOf (E : Env) (so : SignOut) : String :=
   s!"ties={if hasTies (eRefs E.num so.tree) then 1 else 0}"
 
+/-- `checkFiles` meets the `<data>` elements in etree's order: when one member lies in front of the signature area and another
+    one has no `<archived-checksum>`, which of the two refusals is reported is not compared (both begin with `f`) -/
+def bothFrontKinds (E : Env) (hk : HK) (ki : KeyInfo) (t : Xml) : Bool :=
+  match prepFx E.num hk ki t with
+  | .ok p =>
+    let ds := dRefs E.num none p.doc1
+    ds.any (fun d => decide (d.length ≠ 0 ∧ d.offset < p.origSig)) &&
+      ds.any (fun d => decide (¬ (d.length ≠ 0 ∧ d.offset < p.origSig) ∧ d.sum = none ∧ d.length ≠ 0))
+  | .error _ => false
+
 /-- is the document `Sign` reads a regular one (`Relic.Xar.regularDoc`)? -/
 def regTag (E : Env) (f : Bytes) : String :=
   match readHdr f with
@@ -349,7 +359,7 @@ def handle : List String → String
       | .err e =>
         let ties := match readHdr f with
           | some h => match E.decode (region f 28 h.clen) with
-            | some (t, _) => hasTies (eRefs E.num t)
+            | some (t, _) => hasTies (eRefs E.num t) || bothFrontKinds E hk ki t
             | none => false
           | none => false
         s!"plan={checksStr p.checks} err {e} ties={if ties then 1 else 0}"
